@@ -8,6 +8,7 @@ static uv::Cmd cmds[] = {
 	{"promela", cmd_promela},
 	{"lua", cmd_lua},
 	{"tables", cmd_tables},
+	{"validate", cmd_validate},
 	{0, 0}
 };
 int main(int argc, char** argv) {
